@@ -643,16 +643,19 @@ pub fn replay_line(lib: &Lib, world: &World, line: &Value, opts: &ReplayOpts) ->
     }
     check_state(lib, &m, &line["state"], None, &mut f);
     if !f.is_empty() {
-        // the real graph is not in the state the spec describes, so the spec's expectations do
-        // not apply; what holds in every state still does: encode never fails validation,
-        // never panics and never returns invalid bytes (C01)
-        let any = json!({"encode": ["ok", "GraphContainsCycle", "ImplicitImportConflict", "ImportTypeMergeConflict"]});
-        let no_decode = ReplayOpts {
+        // the real graph is not in the state the spec describes, so the outcome class the spec
+        // expects does not apply; what holds in every state still does: encode never fails
+        // validation, never panics and never returns invalid bytes (C01).  The operations of the
+        // history were all accepted, so what they designate is still the contract's state: when
+        // the graph does encode, its wiring and interface are compared with that (C02, C03).
+        let any = json!({"encode": ["ok", "GraphContainsCycle", "ImplicitImportConflict", "ImportTypeMergeConflict"],
+                         "comps": line["state"]["comps"]});
+        let with_decode = ReplayOpts {
             encode_every: 1,
-            decode: false,
+            decode: opts.decode,
             hash_repeats: 0,
         };
-        check_encode(lib, &m, &any, &no_decode, &mut f, &mut stats);
+        check_encode(lib, &m, &any, &with_decode, &mut f, &mut stats);
         return (f, stats);
     }
     let before = m.world.graph.verif_snapshot();
